@@ -46,7 +46,50 @@ def make_plan(tape, prop):
             keys = [(tape.draw(1 << 16), i) for i in range(n)]
             p = [i for _, i in sorted(keys)]
         perms.append(p)
-    return {"sim": "order", "prop": prop, "schema": schema, "perms": perms, "compact_exprs": tape.chance(1, 2)}
+    plan = {"sim": "order", "prop": prop, "schema": schema, "perms": perms, "compact_exprs": tape.chance(1, 2)}
+    # a patch file that changes a member's type after parsing, and with it a dependency edge
+    plan["patch"] = [tape.draw(1 << 10), tape.draw(1 << 10), tape.draw(1 << 10)] if tape.chance(1, 6) else None
+    return plan
+
+
+def apply_type_patch(schema, code):
+    """-> (patched schema (the reference), patch file text) or (schema, None) when no member qualifies.
+    A plain scalar member of a struct gets the type of a fixed composite / enum defined *before* the struct."""
+    import copy
+    defs = schema["defs"]
+    cands = []
+    for si, d in enumerate(defs):
+        if d["k"] != "struct":
+            continue
+        sizers = set(m.get("sizer") for m in d["members"])
+        earlier = [e for e in defs[:si] if e["k"] in ("enum", "union") or
+                   (e["k"] == "struct" and all(m["arr"] in (None, "fixed", "limited") for m in e["members"]) and
+                    all(_fixed_type(defs, m["type"]) for m in e["members"]))]
+        for mi, m in enumerate(d["members"]):
+            if m["arr"] is None and not m["opt"] and m["name"] not in sizers and m["type"] in gs.BUILTIN_WIDTH and earlier:
+                cands.append((si, mi, earlier))
+    if not cands:
+        return schema, None
+    si, mi, earlier = cands[code[0] % len(cands)]
+    target = earlier[code[1] % len(earlier)]
+    patched = copy.deepcopy(schema)
+    patched["defs"][si]["members"][mi]["type"] = target["name"]
+    return patched, "%s type %s %s\n" % (defs[si]["name"], defs[si]["members"][mi]["name"], target["name"])
+
+
+def _fixed_type(defs, name):
+    if name in gs.BUILTIN_WIDTH:
+        return True
+    d = next((x for x in defs if x["name"] == name), None)
+    if d is None:
+        return False
+    if d["k"] in ("enum", "union"):
+        return True
+    if d["k"] == "typedef":
+        return _fixed_type(defs, d["type"])
+    if d["k"] == "struct":
+        return all(m["arr"] in (None, "fixed", "limited") and _fixed_type(defs, m["type"]) for m in d["members"])
+    return False
 
 
 def ref_dependencies(schema):
@@ -112,22 +155,35 @@ class OrderRun(object):
             for d in schema["defs"]:
                 if d["k"] == "const":
                     d["expr"] = d["expr"].replace(" ", "")
+        rendered = schema          # what is written to the xml file
+        patch_text = None
+        if plan.get("patch"):
+            patched, patch_text = apply_type_patch(schema, plan["patch"])
+            if patch_text:
+                schema = patched       # the reference: what the compiler must produce after patching
+                self.probes["patched_dependency_edge"] = 1
         R = rt.Resolved(schema)
         deps = ref_dependencies(schema)
         names = [d["name"] for d in schema["defs"]]
         late = max([0] + [len(v) for v in deps.values()])
         layouts = []
         for pi, perm in enumerate(plan["perms"]):
-            defs = [schema["defs"][i] for i in perm if i < len(schema["defs"])]
+            defs = [rendered["defs"][i] for i in perm if i < len(rendered["defs"])]
             text = render.isar_text(defs)
             self.text = text
             fs = simfs.FakeFS("/w")
             fs.mkdir("/w/out")
             fs.put("/w/s.xml", text)
+            argv = ["--isar", "--python_out", "/w/out"]
+            if patch_text:
+                fs.put("/w/p.patch", patch_text)
+                argv += ["--patch", "/w/p.patch"]
+                if pi == 0:
+                    self.trace.append("patch: %s" % patch_text.strip())
             clock = StepClock(STEP_A + STEP_B * len(text))
             try:
                 with clock:
-                    nodes, exc, so, se = simworld.run_prophyc(fs, ["--isar", "--python_out", "/w/out", "/w/s.xml"])
+                    nodes, exc, so, se = simworld.run_prophyc(fs, argv + ["/w/s.xml"])
             except SimTimeout:
                 self.steps += clock.steps
                 return self.viol("C15", "hang", "C15/sort-step-budget", pi,
